@@ -49,7 +49,12 @@ def encode(obj):
     validate_encoded(obj)
     return obj
   elif isinstance(obj, list) or isinstance(obj, dict):
-    string = json.dumps(obj)
+    try:
+      string = json.dumps(obj, allow_nan = False)
+    except ValueError as err:
+      raise gfapy.ValueError(
+        "{} cannot be represented in JSON\n".format(repr(obj))+
+        "error message: {}".format(str(err))) from err
     validate_all_printable(string)
     return string
   else:
